@@ -50,7 +50,7 @@ DESIGN_REF = "DESIGN.md §3 C39"
 TECHNIQUE = ("round-trip oracle: real ArchiverTag (stand-alone and inside a real Engine run) on a virtual clock, "
              "archive() strings captured at write time vs. csv read-back with the archiver's own dialect")
 RULE = ("Hypothesis generates tag collections (plain/reading/select/mark/skipped/archiver tags; float, int, str, Decimal, "
-        "None values; names, values and Mark texts over an alphabet rich in ',', ';', '\"', '\\\\', quote, space, non-ASCII) "
+        "None values; names, values and Mark texts over an alphabet rich in ',', ';', '\"', '\\\\', quote, space, tab, carriage return, line feed, non-ASCII) "
         "and start/tick/stop histories (stand-alone) or P-code methods (engine). Non-trivial = at least one data row was "
         "written and some archived cell contains the delimiter, the quote character or the escape character. "
         "Distinct = distinct case JSON.")
@@ -76,11 +76,13 @@ _FORBIDDEN_CATS = ("Cs", "Cc", "Zl", "Zp")
 
 # ---- domain guards ----------------------------------------------------------------------------------
 
-def _text_ok(s, pcode=False) -> bool:
+def _text_ok(s, pcode=False, line=False) -> bool:
     if not isinstance(s, str) or len(s) > 400:
         return False
     for ch in s:
-        if ch == "\t":
+        if ch in "\t\r" or (ch == "\n" and not line):
+            # tab, carriage return and (outside a method line) line feed are ordinary text for the archive: a value
+            # that contains a row terminator must still read back unchanged and must not split its row
             continue
         if unicodedata.category(ch) in _FORBIDDEN_CATS:
             return False
@@ -181,7 +183,7 @@ def _case_ok(case) -> bool:
         return False
     if eng:
         m = case.get("method")
-        if not isinstance(m, list) or len(m) > 40 or not all(_text_ok(x, pcode=True) for x in m):
+        if not isinstance(m, list) or len(m) > 40 or not all(_text_ok(x, pcode=True, line=True) for x in m):
             return False
         n = case.get("ticks")
         return isinstance(n, int) and not isinstance(n, bool) and 0 <= n <= 200
@@ -686,21 +688,22 @@ def check_case(case) -> list[Violation]:
 # ---- generators -----------------------------------------------------------------------------------------
 
 _NARROW = ',;"\\\' :.|%/=abXY01éß日\t'
-_narrow_chars = st.characters(whitelist_categories=(), whitelist_characters=_NARROW)
+_narrow_chars = st.characters(whitelist_categories=(), whitelist_characters=_NARROW + "\r\n")
+_narrow_line_chars = st.characters(whitelist_categories=(), whitelist_characters=_NARROW + "\r")
 _wide_chars = st.characters(blacklist_categories=_FORBIDDEN_CATS, blacklist_characters="#")
 
 
-def texts(min_size=0, max_size=8):
+def texts(min_size=0, max_size=8, narrow=_narrow_chars):
     # one primitive draw per string (fast); two of three strings come from the alphabet of dialect-relevant characters
-    return st.one_of(st.text(_narrow_chars, min_size=min_size, max_size=max_size),
-                     st.text(_narrow_chars, min_size=min_size, max_size=max_size),
+    return st.one_of(st.text(narrow, min_size=min_size, max_size=max_size),
+                     st.text(narrow, min_size=min_size, max_size=max_size),
                      st.text(_wide_chars, min_size=min_size, max_size=max_size))
 
 
 # All strategies are built once at import time: constructing strategies inside @composite bodies dominated the run time.
 _T08, _T06, _T16 = texts(0, 8), texts(0, 6), texts(1, 6)
 _names = _T16.filter(lambda s: s.strip() != "")
-_arg = _T16.filter(lambda s: s.strip() != "")     # '#' is excluded from both alphabets
+_arg = texts(1, 6, _narrow_line_chars).filter(lambda s: s.strip() != "")     # '#' is excluded from both alphabets; no line feed inside a method line
 _floats = st.one_of(st.sampled_from(["0.0", "-0.0", "1.5", "nan", "inf", "-inf", "1e300", "1e-7", "123456789.123456789", "-2.5"]),
                     st.floats(allow_nan=False, allow_infinity=False, width=64).map(repr))
 _val_f = _floats.map(lambda x: ["f", x])
